@@ -431,11 +431,67 @@ pub fn exhaustive(max_body: usize, mut f: impl FnMut(&str, usize)) {
     }
 }
 
+/// Exhaustive small scope for multi-parameter calibrations: arity 2 and 3, caller `U` with every
+/// literal/variable pattern (L V, V L, L V V, V L V, L L V, ...), distinct variable names %a %b %c,
+/// literal at position i = i+1; the body uses every variable (one frame instruction per variable, an
+/// unmatched gate listing the parameters in order, and a nested call of `V` passing them in reverse
+/// order); callee `V` again with every pattern; applied to `U` with pairwise distinct arguments in
+/// the matching order and in a rotated order.
+pub fn exhaustive_params(mut f: impl FnMut(&str)) {
+    let cvars = ["a", "b", "c"];
+    let kvars = ["x", "y", "z"];
+    let kinds = ["SET-PHASE", "SHIFT-PHASE", "SET-SCALE"];
+    for n in 2..=3usize {
+        for cp in 0..(1u32 << n) {
+            for kp in 0..(1u32 << n) {
+                // caller
+                let pat: Vec<String> = (0..n)
+                    .map(|i| if cp >> i & 1 == 1 { format!("%{}", cvars[i]) } else { format!("{}", i + 1) })
+                    .collect();
+                let mut body: Vec<String> = Vec::new();
+                for i in 0..n {
+                    if cp >> i & 1 == 1 {
+                        body.push(format!("{} q \"f\" %{}", kinds[i], cvars[i]));
+                    }
+                }
+                body.push(format!("G({}) q", pat.join(", ")));
+                let rev: Vec<String> = pat.iter().rev().cloned().collect();
+                body.push(format!("V({}) q", rev.join(", ")));
+                // callee: the caller passes n, n-1, .., 1 under the matching arguments
+                let kpat: Vec<String> = (0..n)
+                    .map(|j| if kp >> j & 1 == 1 { format!("%{}", kvars[j]) } else { format!("{}", n - j) })
+                    .collect();
+                let mut kbody: Vec<String> = Vec::new();
+                for j in 0..n {
+                    if kp >> j & 1 == 1 {
+                        kbody.push(format!("{} r \"g\" %{}", kinds[j], kvars[j]));
+                    }
+                }
+                let first = (0..n).find(|j| kp >> j & 1 == 1).map(|j| format!("%{}", kvars[j])).unwrap_or("1".to_string());
+                kbody.push(format!("PULSE r \"f\" flat(duration: {first}, iq: 1)"));
+                let matching: Vec<String> = (1..=n).map(|v| v.to_string()).collect();
+                let mut rotated = matching.clone();
+                rotated.rotate_left(1);
+                for args in [&matching, &rotated] {
+                    let text = format!(
+                        "{PRELUDE}{}{}U({}) 0\nH 0\n",
+                        defcal(&format!("U({}) q", pat.join(", ")), &body.iter().map(|s| s.as_str()).collect::<Vec<_>>()),
+                        defcal(&format!("V({}) r", kpat.join(", ")), &kbody.iter().map(|s| s.as_str()).collect::<Vec<_>>()),
+                        args.join(", ")
+                    );
+                    f(&text);
+                }
+            }
+        }
+    }
+}
+
 const NAMES: [&str; 3] = ["A", "B", "C"];
 
 struct Ctx<'a> {
     qvars: Vec<&'a str>,
-    tvar: Option<&'a str>,
+    /// the calibration's parameter variables (distinct names)
+    tvars: Vec<&'a str>,
     formal: Option<&'a str>,
     /// index of the calibration's own gate name (3 for measurement calibrations)
     level: usize,
@@ -451,9 +507,20 @@ fn gen_qubit(rng: &mut Rng, ctx: &Ctx) -> String {
     }
 }
 
+/// number of parameters: 0..3
+fn gen_arity(rng: &mut Rng) -> usize {
+    match rng.below(20) {
+        0..=6 => 0,
+        7..=13 => 1,
+        14..=17 => 2,
+        _ => 3,
+    }
+}
+
 /// (text, depends on the calibration parameter, grows)
 fn gen_expr(rng: &mut Rng, ctx: &Ctx) -> (String, bool, bool) {
-    if let Some(t) = ctx.tvar {
+    if !ctx.tvars.is_empty() {
+        let t = *rng.pick(&ctx.tvars);
         match rng.below(8) {
             0 | 1 | 2 => return (format!("%{t}"), true, false),
             3 => return (format!("%{t}+1"), true, true),
@@ -479,7 +546,7 @@ fn gen_region(rng: &mut Rng, ctx: &Ctx, formal_bias: usize) -> String {
 
 fn gen_nested_gate(rng: &mut Rng, ctx: &Ctx) -> String {
     let callee = rng.below(3);
-    let nparams = rng.below(2);
+    let nparams = gen_arity(rng);
     let nq = if rng.chance(1, 5) { 2 } else { 1 };
     let mut ps = Vec::new();
     for _ in 0..nparams {
@@ -569,7 +636,7 @@ pub fn random_program(rng: &mut Rng) -> String {
             let name = if rng.chance(1, 8) { "!mid" } else { "" };
             let ctx = Ctx {
                 qvars: if qubit == "q" { vec!["q"] } else { vec![] },
-                tvar: None,
+                tvars: vec![],
                 formal,
                 level: 3,
             };
@@ -591,35 +658,57 @@ pub fn random_program(rng: &mut Rng) -> String {
                     *rng.pick(&["0", "1"])
                 });
             }
-            let param = match rng.below(5) {
-                0 | 1 => Some("%t"),
-                2 => Some(*rng.pick(&["1", "2", "1+1", "pi"])),
-                _ => None,
-            };
+            // 0..3 parameter patterns, each a variable (distinct names, in a random order) or a literal
+            let arity = gen_arity(rng);
+            let mut vnames = vec!["t", "v", "w"];
+            if rng.chance(1, 2) {
+                vnames.rotate_left(rng.below(3));
+            }
+            let mut pats: Vec<String> = Vec::new();
+            let mut tvars: Vec<&str> = Vec::new();
+            for k in 0..arity {
+                if rng.chance(1, 2) {
+                    pats.push(format!("%{}", vnames[k]));
+                    tvars.push(vnames[k]);
+                } else {
+                    pats.push(rng.pick(&["1", "2", "3", "1+1", "pi"]).to_string());
+                }
+            }
             let ctx = Ctx {
                 qvars: qs.iter().copied().filter(|q| *q == "q" || *q == "r").collect(),
-                tvar: if param == Some("%t") { Some("t") } else { None },
+                tvars,
                 formal: None,
                 level,
             };
             let body: Vec<String> = (0..nbody).map(|_| gen_body_instr(rng, &ctx)).collect();
-            let head = match param {
-                Some(p) => format!("{}({p}) {}", NAMES[level], qs.join(" ")),
-                None => format!("{} {}", NAMES[level], qs.join(" ")),
+            let head = if pats.is_empty() {
+                format!("{} {}", NAMES[level], qs.join(" "))
+            } else {
+                format!("{}({}) {}", NAMES[level], pats.join(", "), qs.join(" "))
             };
             text.push_str(&defcal(&head, &body.iter().map(|s| s.as_str()).collect::<Vec<_>>()));
         }
     }
     let nprog = rng.range(1, 5);
-    let top = Ctx { qvars: vec![], tvar: None, formal: None, level: 0 };
+    let top = Ctx { qvars: vec![], tvars: vec![], formal: None, level: 0 };
     for _ in 0..nprog {
         let line = match rng.below(10) {
             0 | 1 | 2 | 3 | 4 => {
                 let name = *rng.pick(&NAMES);
                 let q = *rng.pick(&["0", "1"]);
-                match rng.below(5) {
+                match rng.below(7) {
                     0 | 1 => format!("{name}({}) {q}", rng.pick(&["1", "2", "1+1", "pi", "2*1", "ro[0]"])),
                     2 => format!("{name} {q} {}", rng.pick(&["0", "1"])),
+                    3 | 4 => {
+                        // 2..3 pairwise distinct arguments, so that a mis-paired parameter is visible
+                        let mut args = vec!["1", "2", "3"];
+                        args.rotate_left(rng.below(3));
+                        if rng.chance(1, 2) {
+                            args.swap(0, 1);
+                        }
+                        let n = rng.range(2, 3);
+                        format!("{name}({}) {q}", args[..n].join(", "))
+                    }
                     _ => format!("{name} {q}"),
                 }
             }
@@ -721,7 +810,8 @@ pub fn chain_program(rng: &mut Rng) -> String {
 
 /// The pinned source-map test of quil-rs (program/mod.rs `expand_calibrations`) and a few
 /// hand-written programs exercising each known class.
-pub const CORPUS: [&str; 6] = [
+pub const CORPUS: [&str; 7] = [
+    "DEFCAL U(1, %b) q:\n    SET-PHASE q \"f\" %b\n    G(%b) q\nU(1, 2) 0\n",
     "DECLARE ro BIT[1]\nDEFCAL I 0:\n    DECLAREMEM\n    NOP\n    NOP\nDEFCAL DECLAREMEM:\n    DECLARE mem BIT[1]\n    NOP\nI 0\nPULSE 0 \"a\" custom_waveform\nI 0\n",
     "DECLARE ro BIT[2]\nDEFCAL X %q:\n    RESET %q\n    SWAP-PHASES %q \"a\" %q \"b\"\n    MEASURE %q ro\n    FENCE %q\nX 3\n",
     "DECLARE ro BIT[2]\nDECLARE other BIT[2]\nDEFCAL MEASURE q addr:\n    CAPTURE q \"f\" flat(duration: 1, iq: 1) addr\n    CAPTURE q \"f\" flat(duration: 1, iq: 1) other[1]\n    FENCE q\nMEASURE 2 ro[1]\n",
